@@ -5,7 +5,7 @@
    real categories in different ways.                                                                    *)
 EXTENDS Integers, Sequences, FiniteSets, TLC, Json, HoneytrapUniverse
 CONSTANTS Sim, NFilters
-VARIABLES conns, sent, panicked, delivered, cfg, step, done
+VARIABLES conns, sent, panicked, beat, delivered, cfg, step, done
 
 Exprs == { [kind |-> "lit", s |-> <<"t">>], [kind |-> "full", s |-> <<"f","t","p">>], [kind |-> "pre", s |-> <<"t","e">>],
            [kind |-> "lit", s |-> <<"t","p">>], [kind |-> "alt", s |-> <<"r","e","d">>, t |-> <<"n","e","t">>], [kind |-> "full", s |-> <<"t">>] }
@@ -29,13 +29,14 @@ Init == /\ \E fs \in (IF Sim THEN { RandCfg(NFilters) } ELSE { <<f>> : f \in Fil
 Next == \/ /\ step <= Len(Plan) /\ H!Accept(Plan[step]) /\ step' = step + 1 /\ UNCHANGED done
         \/ /\ step > Len(Plan) /\ step <= 3 * Len(Plan)
            /\ LET k == ((step - Len(Plan) - 1) % Len(Plan)) + 1 IN
-              IF conns[k].svc = "none" \/ k \in panicked THEN UNCHANGED <<cfg, conns, sent, panicked, delivered>>
+              IF conns[k].svc = "none" \/ k \in panicked THEN UNCHANGED <<cfg, conns, sent, panicked, beat, delivered>>
               ELSE IF conns[k].svc = "boom" /\ step > 2 * Len(Plan) THEN H!Panic(k)
               ELSE H!Emit(k, [k |-> "missing"])
            /\ step' = step + 1 /\ UNCHANGED done
+        \/ /\ ((step = Len(Plan) + 1 /\ beat = 0) \/ (step = 2 * Len(Plan) + 1 /\ beat = 1)) /\ H!Heartbeat /\ UNCHANGED <<step, done>>
         \/ /\ step > 3 * Len(Plan) /\ ~done /\ done' = TRUE
            /\ PrintT(<<"SCN", ToJson([filters |-> cfg, routed |-> [k \in 1..Len(conns) |-> conns[k].svc]])>>)
-           /\ UNCHANGED <<conns, sent, panicked, delivered, cfg, step>>
-Spec == Init /\ [][Next]_<<conns, sent, panicked, delivered, cfg, step, done>>
-Inv == H!ExactlyAdmitted /\ H!OrderPreserved /\ H!Attributed /\ H!SilentIfUnrouted /\ H!OneFatalPerPanic
+           /\ UNCHANGED <<conns, sent, panicked, beat, delivered, cfg, step>>
+Spec == Init /\ [][Next]_<<conns, sent, panicked, beat, delivered, cfg, step, done>>
+Inv == H!ExactlyAdmitted /\ H!OrderPreserved /\ H!Attributed /\ H!SilentIfUnrouted /\ H!OneFatalPerPanic /\ H!HeartbeatsNumbered
 =============================================================================
